@@ -450,9 +450,9 @@ func attemptC14Case(c c14Case, probe *noiseProbe) (res c14Result) {
 			return c14Result{Verdict: "violation", LoadSensitive: true, Key: keyBase + "slow:no-timeout", What: what,
 				Obj: obj(snap, map[string]any{"probe_late": late.String(), "goroutines": goroutineDump()})}
 		}
-		if !r.waitDone(5 * time.Second) {
+		if !r.waitDone(30 * time.Second) {
 			return c14Result{Verdict: "violation", Key: keyBase + "slow:not-stopped",
-				What: fmt.Sprintf("timeout error %q reported but DoneChan still open 5s later", terr),
+				What: fmt.Sprintf("timeout error %q reported but DoneChan still open 30s later", terr),
 				Obj:  obj(snap, map[string]any{"goroutines": goroutineDump()})}
 		}
 		if len(snap.transitions()) > n && snap.transitions()[n].Err == "" {
